@@ -121,14 +121,36 @@ type vBlobSpec struct {
 	Size string `json:"size"`
 	Var  int    `json:"var"`  // content variant: equal (NS,Ver,Size,Var) => byte-identical blobs
 	Join bool   `json:"join"` // true: same blob transaction as the previous blob
+	// Twin: the payload is the one the OTHER share version would get for this (NS,Size,Var), so a
+	// blob and its twin carry byte-identical data under different share versions.
+	Twin bool `json:"twin,omitempty"`
+	// Sig selects the signer of a v1 blob (0 = the default signer).
+	Sig int `json:"sig,omitempty"`
 }
+
+// dataVer is the share version whose capacity rules and seed produce this blob's payload.
+func (b vBlobSpec) dataVer() int {
+	if b.Twin {
+		return 1 - b.Ver
+	}
+	return b.Ver
+}
+
+func vSignerFor(k int) []byte { return bytes.Repeat([]byte{0x5a + byte(k)}, libshare.SignerSize) }
 
 func (b vBlobSpec) String() string {
 	j := ""
 	if b.Join {
 		j = "+"
 	}
-	return fmt.Sprintf("%s%s.v%d.%s.%d", j, b.NS, b.Ver, b.Size, b.Var)
+	out := fmt.Sprintf("%s%s.v%d.%s.%d", j, b.NS, b.Ver, b.Size, b.Var)
+	if b.Twin {
+		out += ".t"
+	}
+	if b.Sig != 0 {
+		out += fmt.Sprintf(".s%d", b.Sig)
+	}
+	return out
 }
 
 func vParseBlobSpec(s string) (vBlobSpec, error) {
@@ -138,8 +160,20 @@ func vParseBlobSpec(s string) (vBlobSpec, error) {
 		s = s[1:]
 	}
 	p := strings.Split(s, ".")
-	if len(p) != 4 {
+	if len(p) < 4 || len(p) > 6 {
 		return b, fmt.Errorf("bad blob spec %q", s)
+	}
+	for _, x := range p[4:] {
+		switch {
+		case x == "t":
+			b.Twin = true
+		case strings.HasPrefix(x, "s"):
+			if _, err := fmt.Sscanf(x, "s%d", &b.Sig); err != nil {
+				return b, err
+			}
+		default:
+			return b, fmt.Errorf("bad blob spec %q", s)
+		}
 	}
 	b.NS = p[0]
 	if _, err := fmt.Sscanf(p[1], "v%d", &b.Ver); err != nil {
@@ -196,8 +230,8 @@ func vParseBlockSpec(s string) (vBlockSpec, error) {
 // (ns,ver,size) differ only in their LAST byte, so multi-share variants share every share but
 // the last (the hardest case for locating a blob by its share bytes).
 func vBlobData(b vBlobSpec) []byte {
-	n := vSizes[b.Size].dataLen(b.Ver)
-	seed := sha256.Sum256([]byte(fmt.Sprintf("%s/%d/%s", b.NS, b.Ver, b.Size)))
+	n := vSizes[b.Size].dataLen(b.dataVer())
+	seed := sha256.Sum256([]byte(fmt.Sprintf("%s/%d/%s", b.NS, b.dataVer(), b.Size)))
 	d := make([]byte, n)
 	for i := range d {
 		d[i] = seed[i%32] ^ byte(i) ^ byte(i>>8)
@@ -325,7 +359,7 @@ func vBuildSquare(spec vBlockSpec) (*square.Builder, []libshare.Share, []*vRefBl
 		data := vBlobData(bs)
 		var signer []byte
 		if bs.Ver == 1 {
-			signer = vSigner
+			signer = vSignerFor(bs.Sig)
 		}
 		lb, err := libshare.NewBlob(vNS[bs.NS], data, uint8(bs.Ver), signer)
 		if err != nil {
